@@ -187,6 +187,17 @@ def execute(sc, ctx):
     fs = SimFS()
     done = {}
     cap = 40000 if sc.get('_tier') == 'thorough' else 5000
+    # size gate on a *separately built* twin (no history added to the module under test)
+    try:
+        twin, _ = _p.materialise(dict(sc, recipe=recipe) if recipe is not None else sc)
+        pfs = SimFS()
+        _p.serialise(twin, pfs, '/sim/probe', 'binary', False)
+        if sum(len(x) for x in pfs.triple('/sim/probe')) > cap:
+            out.event('module too large for this tier: not judged')
+            out.nontrivial = False
+            return out
+    except Exception:
+        pass
     if len(sc['history']) >= 3: out.probe('history_len_ge3')
     for ji, (fmt, opt) in enumerate(sc['history']):
         base = '/sim/job%d' % ji
